@@ -114,7 +114,25 @@ func (e *Engine) opaqueCall(st *State, id *smt.Term, args []Value, sig *types.Si
 	argLeaves := []*smt.Term{id}
 	argSorts := []smt.Sort{bv64}
 	li := 0
+	// what the callee can observe: the argument leaves and, for pointers to structs (directly or inside an
+	// interface), the scalar fields of the pointee at the time of the call
+	var observed []Value
 	for _, a := range args {
+		observed = append(observed, a)
+		pv := a
+		if isIface(a.T) && a.L[0].IsConst() && a.L[0].Val != 0 {
+			dyn := e.typeOf[a.L[0].Val]
+			if _, ok := dyn.Underlying().(*types.Pointer); ok {
+				pv = e.unboxIface(st, a, dyn)
+			}
+		}
+		if pt, ok := pv.T.Underlying().(*types.Pointer); ok {
+			if _, ok := pt.Elem().Underlying().(*types.Struct); ok && !(pv.L[0].IsConst() && pv.L[0].Val == 0) {
+				observed = append(observed, e.loadAt(st, pv, pt.Elem()))
+			}
+		}
+	}
+	for _, a := range observed {
 		for _, l := range a.L {
 			k := fmt.Sprintf("$callarg%d_%s", li, l.Sort)
 			am := e.memByKey(st, k, l.Sort, lkScalar)
@@ -136,7 +154,7 @@ func (e *Engine) opaqueCall(st *State, id *smt.Term, args []Value, sig *types.Si
 			v.L[i] = e.k64(uint64(e.placeForPointee(lf.Ptee)))
 			continue
 		}
-		f := c.DeclFunc(fmt.Sprintf("call_%s_%d", smt.Sanitize(sigKey(sig)), i), argSorts, lf.Sort)
+		f := c.DeclFunc(fmt.Sprintf("call_%s_n%d_%d", smt.Sanitize(sigKey(sig)), len(argSorts), i), argSorts, lf.Sort)
 		v.L[i] = c.App(f, argLeaves...)
 	}
 	e.constrain(v)
